@@ -1,16 +1,43 @@
-(* C09 -- entity expansion is bounded yet not over-restricted: the loop detector.
-   Statements pinned here; proofs in Proofs/DetectorProofs.v.  The limits come from
-   Generated.v, i.e. from /repo/src/parse.rs as it is now. *)
-From Coq Require Import List NArith.
+(* C09 -- entity expansion is bounded yet not over-restricted.  (1) the loop detector is sound and complete
+   w.r.t. the trace specification, with the documented numbers (10, 255) against constants regenerated from the
+   source; (2) the node budget over a whole parse: a successfully parsed document has at most
+   1 + len + 256 * len * amp nodes (hence <= 256 * (len + 1) * (amp + 1)), for every input and all options;
+   without a DOCTYPE at most len + 1 nodes.
+   Statements are pinned here (copied verbatim from the proof files by tools/pin_props.py);
+   each is re-proved by `exact` and followed by Print Assumptions. *)
+From Coq Require Import Ascii String.
+From Coq Require Import List NArith Bool PeanoNat Sorted.
 Import ListNotations.
 From RX Require Import Generated.
-From RX.Model Require Import Base Stream Builder.
+From RX.Model Require Import Base CharClass Stream Tokenizer Doc Builder Parse Api.
 From RX.Spec Require Import Detector.
-From RX.Proofs Require Import DetectorProofs.
+From RX.Proofs Require Import DetectorProofs OptionsParam OptionsBuild OptionsMain OptionsDtd BudgetStream BudgetTok BudgetBuild BudgetAcct BudgetMain BudgetNoEnt.
 Open Scope N_scope.
 
-(* the pure step used below is what the model's inc_references; inc_depth do *)
-Theorem C09_enter_agrees_model : forall text s ld,
+(* ---- Proofs/BudgetMain.v ---- *)
+Theorem C09_expansion_budget_nodes :
+  forall text opt d, parse text opt = Ok d ->
+  len_N (d_nodes d) <= 256 * (tlen text + 1) * (amp_count text + 1).
+Proof. exact expansion_budget_nodes. Qed.
+Print Assumptions C09_expansion_budget_nodes.
+
+Theorem C09_expansion_budget_tight :
+  forall text opt d, parse text opt = Ok d ->
+  len_N (d_nodes d) <= 1 + tlen text + 256 * tlen text * amp_count text.
+Proof. exact expansion_budget_tight. Qed.
+Print Assumptions C09_expansion_budget_tight.
+
+(* ---- Proofs/BudgetNoEnt.v ---- *)
+Theorem C09_budget_no_entities :
+  forall text opt d,
+  parse text opt = Ok d -> contains_b (b "<!DOCTYPE") text = false ->
+  len_N (d_nodes d) <= tlen text + 1.
+Proof. exact budget_no_entities. Qed.
+Print Assumptions C09_budget_no_entities.
+
+(* ---- Proofs/DetectorProofs.v ---- *)
+Theorem C09_enter_agrees_model :
+  forall text s ld,
   match ld_enter ld with
   | Some ld' => bind (inc_references text s ld) (inc_depth text s) = Ok ld'
   | None => forall x, bind (inc_references text s ld) (inc_depth text s) <> Ok x
@@ -18,26 +45,28 @@ Theorem C09_enter_agrees_model : forall text s ld,
 Proof. exact enter_agrees_model. Qed.
 Print Assumptions C09_enter_agrees_model.
 
-(* every accepted trace respects the limits ... *)
-Theorem C09_detector_sound : forall tr st,
+Theorem C09_detector_sound :
+  forall tr st,
   ld_run ld_init tr = Some st -> depth_after 0 tr <> None ->
   within_limits ld_max_depth ld_max_refs 0 0 tr = true.
 Proof. exact detector_sound. Qed.
 Print Assumptions C09_detector_sound.
 
-(* ... and every trace within the limits is accepted (not over-restrictive) *)
-Theorem C09_detector_complete : forall tr,
+Theorem C09_detector_complete :
+  forall tr,
   within_limits ld_max_depth ld_max_refs 0 0 tr = true -> accepted tr.
 Proof. exact detector_complete. Qed.
 Print Assumptions C09_detector_complete.
 
-Theorem C09_limits_bound_depth : forall D R tr pre suf,
+Theorem C09_limits_bound_depth :
+  forall D R tr pre suf,
   within_limits D R 0 0 tr = true -> tr = pre ++ suf ->
   exists d, depth_after 0 pre = Some d /\ d <= D.
 Proof. exact limits_bound_depth. Qed.
 Print Assumptions C09_limits_bound_depth.
 
-Theorem C09_limits_bound_nested : forall D R a seg b,
+Theorem C09_limits_bound_nested :
+  forall D R a seg b,
   within_limits D R 0 0 (a ++ Enter :: seg ++ b) = true ->
   depth_after 0 a = Some 0 ->
   (forall p q, seg = p ++ q -> exists d, depth_after 1 p = Some d /\ 1 <= d) ->
@@ -45,19 +74,22 @@ Theorem C09_limits_bound_nested : forall D R a seg b,
 Proof. exact limits_bound_nested. Qed.
 Print Assumptions C09_limits_bound_nested.
 
-(* the documented numbers, against the constants read from the source *)
-Theorem C09_documented_limits : ld_max_depth = 10 /\ ld_max_refs = 255.
+Theorem C09_documented_limits :
+  ld_max_depth = 10 /\ ld_max_refs = 255.
 Proof. exact documented_limits. Qed.
 Print Assumptions C09_documented_limits.
 
-Theorem C09_chain_accepted_iff : forall n, accepted (chain n) <-> (n <= 10)%nat.
+Theorem C09_chain_accepted_iff :
+  forall n, accepted (chain n) <-> (n <= 10)%nat.
 Proof. exact chain_accepted_iff. Qed.
 Print Assumptions C09_chain_accepted_iff.
 
-Theorem C09_fan_accepted_iff : forall n, accepted (fan n) <-> (n <= 255)%nat.
+Theorem C09_fan_accepted_iff :
+  forall n, accepted (fan n) <-> (n <= 255)%nat.
 Proof. exact fan_accepted_iff. Qed.
 Print Assumptions C09_fan_accepted_iff.
 
-Theorem C09_flat_accepted : forall n, accepted (flat n).
+Theorem C09_flat_accepted :
+  forall n, accepted (flat n).
 Proof. exact flat_accepted. Qed.
 Print Assumptions C09_flat_accepted.
